@@ -749,7 +749,7 @@ def key_expr(e):
     elif e.__class__ == ExprCompose:
         return [ 7 ] + [ key_expr_compose(e) for e in e.args ]
     elif e.__class__ == ExprInt:
-        return [ 8, e.arg ]
+        return [ 8, e.arg, e.get_size() ]
     raise ValueError("not imppl %r"%e)
 
 def key_expr_compose(e):
